@@ -90,6 +90,17 @@ class Fragment:
             j += 1
         raise AnchorLost("%s: end of statement after %r not found" % (self.name, anchor))
 
+    def replace_call(self, anchor, new, rule, occ=1, why=""):
+        """Replace the expression that starts at `anchor` and ends with the `)` matching the first `(` at or after
+        the end of the anchor (e.g. a method-call chain `a.b().c(|x| ..)` anchored at `a` with anchor ending in `.c`)."""
+        m = self._find(anchor, occ)
+        toks = self._toks()
+        i = next((ix for ix, t in enumerate(toks) if t[1] >= m.end() - 1 and self.orig[t[1]:t[2]] == "("), None)
+        if i is None:
+            raise AnchorLost("%s: no call after %r" % (self.name, anchor))
+        c = match_close(self.orig, toks, i)
+        return self.replace_span(m.start(), toks[c][2], new, rule, why)
+
     def replace(self, anchor, new, rule, occ=1, why=""):
         m = self._find(anchor, occ)
         return self.replace_span(m.start(), m.end(), new, rule, why)
@@ -181,6 +192,12 @@ class Fragment:
         if props:
             self.props_all = list(props)
         return self
+
+    def drop_body(self, why="callee kept abstract in this unit (its contract is proved elsewhere or assumed)"):
+        """Keep only the signature: the body is replaced by `unimplemented!()`; the function must be external_body."""
+        bo, bc = self._body_open_rel(), self._body_close_rel()
+        self.contracted = False
+        return self.replace_span(bo + 1, bc, " unimplemented!() ", "R9", why)
 
     def body_start(self, text):
         return self.insert_at(self._body_open_rel() + 1, "\n" + text)
@@ -322,8 +339,9 @@ class Fragment:
         body = self.orig[s:end].rstrip()
         end = s + len(body)
         sp = spec.replace("{body}", body)
-        new = "%s%s %s { %s }" % (head, rtxt, sp, body)
-        return self.replace_span(m.start(), end, new, rule, "closure contract (body expression unchanged)")
+        self.replace_span(m.start(), m.end(), "%s%s %s { " % (head, rtxt, sp), rule,
+                          "closure contract (types, named return, clauses, braces; body expression unchanged)")
+        return self.insert_at(end, " }")
 
     # ---- rendering -----------------------------------------------------------------------
     def render(self):
